@@ -197,7 +197,7 @@ pub fn run(out: &mut Out, tier: &str, seed: u64) {
     // random part: larger terms, groups up to 4 definitions, holes allowed in half of them
     let n_random = if tier == "thorough" { 60000 } else { 6000 };
     for k in 0..n_random {
-        let g = TermGen { holes: k % 2 == 1, max_var: 3, big_lits: true };
+        let g = TermGen { holes: k % 2 == 1, max_var: 3, big_lits: true, closed: false };
         let budget = 2 + rng.below(if k % 10 == 0 { 80 } else { 25 });
         let t = g.make(&mut rng, budget, 0);
         let bu = 1 + rng.below(8); let u = g.make(&mut rng, bu, 0);
